@@ -551,6 +551,9 @@ def step (_ : Unit) (ws : List String) : Unit × String :=
   | ["first", _, helper, pf, ps, kind, script] => firstAnswer false helper pf ps kind script
   | ["firstx", _, helper, pf, ps, kind, script] => firstAnswer true helper pf ps kind script
   | ["psess", _, consumer, pf, ps, kind, script] => psessAnswer consumer pf ps kind script
+  -- a statement bound to one connection (Conn.query: skipPrepare, follow-up pages through `n.qry.conn`): an unprepared query
+  | ["csess", ver, consumer, pf, ps, script] =>
+    if consumer == "manual" || (ver.splitOn "n").length > 1 then "bad-op" else sessAnswer ver consumer pf ps "q" "." script
   | ["rsessx", ver, consumer, _, ps, kind, first, policy, script] => rsessAnswer ver consumer ps kind first policy script
   | _ => "bad-op")
 
